@@ -324,3 +324,238 @@ c06b_run(const c06b_case *c, c06b_out *out) {
 	}
 	tp_res_get(&out->res);
 }
+
+/* ============================ (c) process events ============================ */
+#include <signal.h>
+#include <stdarg.h>
+#include <sys/syscall.h>
+#include <sys/wait.h>
+
+static atomic_uint gc_pidfd_opens;
+
+/* threadpool.c reaches pidfd_open through syscall(); the pool sources of this check are compiled with
+ * -Dsyscall=verif_syscall so that the descriptor enters the resource table like every other one */
+long
+verif_syscall(long nr, ...) {
+	va_list ap;
+	long a0, a1, r;
+
+	va_start(ap, nr);
+	a0 = va_arg(ap, long);
+	a1 = va_arg(ap, long);
+	va_end(ap);
+	if (SYS_pidfd_open != nr) { /* nothing else is used by the pool sources */
+		errno = ENOSYS;
+		return (-1);
+	}
+	r = syscall(nr, a0, a1);
+	if (r >= 0) {
+		tp_fd_adopt((int)r, 6);
+		atomic_fetch_add(&gc_pidfd_opens, 1);
+	}
+	return (r);
+}
+
+static tp_p gc_tp;
+static tpt_p gc_owner;
+static const c06c_case *gc_case;
+static c06c_out *gc_out;
+static tp_udata_t gc_ud[C06C_MAX_CH];
+static pid_t gc_pid[C06C_MAX_CH];
+static int gc_pipe[C06C_MAX_CH][2];
+static uint8_t gc_dead[C06C_MAX_CH];
+static atomic_uint gc_fired[C06C_MAX_CH], gc_done, gc_fence;
+
+static void
+proc_cb(tp_event_p ev, tp_udata_p ud) {
+	size_t ch = ud->size;
+
+	if (ch >= C06C_MAX_CH)
+		return;
+	gc_out->last_event[ch] = ev->event;
+	gc_out->last_flags[ch] = ev->flags;
+	gc_out->last_fflags[ch] = ev->fflags;
+	gc_out->last_data[ch] = ev->data;
+	if (tpt_get_current() != gc_owner)
+		gc_out->wrong_thread[ch] = 1;
+	atomic_fetch_add(&gc_fired[ch], 1);
+}
+
+static int
+proc_op(const c06c_cmd *cm) {
+	size_t ch = cm->ch % C06C_MAX_CH;
+
+	switch (cm->cmd) {
+	case P_ADD: return (tpt_ev_add_args(gc_owner, TP_EV_PROC, cm->flags, cm->fflags, 0, &gc_ud[ch]));
+	case P_ENABLE: return (tpt_ev_enable_args(1, TP_EV_PROC, cm->flags, cm->fflags, 0, &gc_ud[ch]));
+	case P_DISABLE: return (tpt_ev_enable_args1(0, TP_EV_PROC, &gc_ud[ch]));
+	default: return (tpt_ev_del_args1(TP_EV_PROC, &gc_ud[ch]));
+	}
+}
+static void
+proc_snap(uint32_t *dst) {
+	size_t i;
+	for (i = 0; i < C06C_MAX_CH; i ++)
+		dst[i] = atomic_load(&gc_fired[i]);
+}
+static void
+proc_in_thread_cb(tpt_p tpt, void *udata) {
+	size_t idx = (size_t)(uintptr_t)udata;
+
+	(void)tpt;
+	gc_out->s[idx].rc = proc_op(&gc_case->cmds[idx]);
+	proc_snap(gc_out->s[idx].fired_at_ret);
+	atomic_fetch_add(&gc_done, 1);
+}
+static void proc_fence_cb(tpt_p tpt, void *udata) { (void)tpt; (void)udata; atomic_fetch_add(&gc_fence, 1); }
+static int
+proc_fences(int k) {
+	int hang = 0;
+	while (k-- > 0) {
+		uint32_t want = atomic_load(&gc_fence) + 1;
+		if (0 != tpt_msg_send(gc_owner, NULL, 0, proc_fence_cb, NULL))
+			return (1);
+		hang |= tp_wait_until(&gc_fence, want, CEIL_MS);
+	}
+	return (hang);
+}
+static void
+child_end(size_t ch) {
+	siginfo_t si;
+
+	if (gc_dead[ch] || gc_pid[ch] <= 0)
+		return;
+	if (gc_case->by_signal[ch])
+		kill(gc_pid[ch], SIGKILL);
+	else
+		(void)!write(gc_pipe[ch][1], "x", 1);
+	/* wait until it is really gone, without reaping it (the library reads the status itself) */
+	memset(&si, 0, sizeof(si));
+	while (-1 == waitid(P_PID, (id_t)gc_pid[ch], &si, WEXITED | WNOWAIT) && EINTR == errno)
+		;
+	gc_dead[ch] = 1;
+}
+
+void
+c06c_run(const c06c_case *c, c06c_out *out) {
+	tp_settings_t s;
+	tp_res_stats rs;
+	size_t i, ch, nch = MIN((size_t)c->nch, (size_t)C06C_MAX_CH);
+
+	memset(out, 0, sizeof(*out));
+	out->never_fired_step = -1;
+	gc_case = c;
+	gc_out = out;
+	/* children first: at this point the process has no pool thread of this case yet */
+	for (ch = 0; ch < C06C_MAX_CH; ch ++) {
+		gc_pid[ch] = -1;
+		gc_pipe[ch][0] = gc_pipe[ch][1] = -1;
+		gc_dead[ch] = 0;
+		atomic_store(&gc_fired[ch], 0);
+	}
+	for (ch = 0; ch < nch; ch ++) {
+		if (0 != pipe2(gc_pipe[ch], O_CLOEXEC)) {
+			out->setup_rc = errno;
+			goto cleanup;
+		}
+		gc_pid[ch] = fork();
+		if (0 == gc_pid[ch]) { /* child: async-signal-safe calls only */
+			char b;
+			while (-1 == read(gc_pipe[ch][0], &b, 1) && EINTR == errno)
+				;
+			_exit(c->exit_code[ch]);
+		}
+		if (-1 == gc_pid[ch]) {
+			out->setup_rc = errno;
+			goto cleanup;
+		}
+	}
+	tp_harness_reset(&c->plans);
+	g_close_unknown_passthrough = 0;
+	atomic_store(&gc_done, 0);
+	atomic_store(&gc_fence, 0);
+	atomic_store(&gc_pidfd_opens, 0);
+	tp_res_get(&rs);
+	out->pre_live_fds = rs.live_fds;
+	tp_settings_def(&s);
+	s.flags = 0;
+	s.threads_max = 1;
+	out->setup_rc = tp_create(&s, &gc_tp);
+	if (0 != out->setup_rc)
+		goto cleanup;
+	tp_threads_create(gc_tp, 0);
+	gc_owner = tp_thread_get(gc_tp, 0);
+	tp_res_get(&rs);
+	out->base_live_fds = rs.live_fds;
+	for (ch = 0; ch < C06C_MAX_CH; ch ++) {
+		memset(&gc_ud[ch], 0, sizeof(tp_udata_t));
+		gc_ud[ch].cb_func = proc_cb;
+		gc_ud[ch].size = ch;
+		gc_ud[ch].ident = (uintptr_t)gc_pid[ch];
+	}
+	tp_harness_arm();
+	for (i = 0; i < c->ncmds && i < C06C_MAX_CMDS; i ++) {
+		const c06c_cmd *cm = &c->cmds[i];
+		c06c_step *st = &out->s[i];
+		uint32_t base[C06C_MAX_CH];
+
+		proc_snap(base);
+		ch = cm->ch % C06C_MAX_CH;
+		if (ch >= nch)
+			continue;
+		switch (cm->cmd) {
+		case P_ADD: case P_ENABLE: case P_DISABLE: case P_DEL:
+			if (cm->outside) {
+				st->rc = proc_op(cm);
+				out->hang |= proc_fences(1);
+				proc_snap(st->fired_at_ret);
+			} else {
+				uint32_t want = atomic_load(&gc_done) + 1;
+				if (0 == tpt_msg_send(gc_owner, NULL, 0, proc_in_thread_cb, (void *)(uintptr_t)i))
+					out->hang |= tp_wait_until(&gc_done, want, CEIL_MS);
+			}
+			break;
+		case P_EXIT:
+			child_end(ch);
+			proc_snap(st->fired_at_ret);
+			break;
+		default:
+			usleep((useconds_t)cm->arg * 1000);
+			proc_snap(st->fired_at_ret);
+			break;
+		}
+		if (cm->await && 0 != tp_wait_until(&gc_fired[ch], base[ch] + 1, CEIL_MS / 2) && -1 == out->never_fired_step)
+			out->never_fired_step = (int)i;
+		out->hang |= proc_fences(4);
+		proc_snap(st->fired_after);
+		usleep(1500);
+		out->hang |= proc_fences(2);
+		proc_snap(st->fired_late);
+		tp_res_get(&rs);
+		st->live_fds = rs.live_fds;
+		for (ch = 0; ch < C06C_MAX_CH; ch ++)
+			st->tpdata[ch] = gc_ud[ch].tpdata;
+	}
+	tp_harness_disarm();
+	out->pidfd_opens = atomic_load(&gc_pidfd_opens);
+	for (ch = 0; ch < nch; ch ++) {
+		if (0 != gc_ud[ch].tpdata && NULL != gc_ud[ch].tpt)
+			tpt_ev_del_args1(TP_EV_PROC, &gc_ud[ch]);
+	}
+	tp_shutdown(gc_tp);
+	tp_shutdown_wait(gc_tp);
+	tp_destroy(gc_tp);
+	tp_res_get(&out->res);
+cleanup:
+	for (ch = 0; ch < C06C_MAX_CH; ch ++) {
+		if (gc_pid[ch] > 0) {
+			if (!gc_dead[ch]) {
+				kill(gc_pid[ch], SIGKILL);
+			}
+			while (-1 == waitpid(gc_pid[ch], NULL, 0) && EINTR == errno)
+				;
+		}
+		if (gc_pipe[ch][0] >= 0) close(gc_pipe[ch][0]);
+		if (gc_pipe[ch][1] >= 0) close(gc_pipe[ch][1]);
+	}
+}
